@@ -19,13 +19,13 @@ RULE = ('(a) Simulated read pairs (genome 3..8 kb, coverage 10..80, error rate 0
         'mixture density column = w0*Pois(i;1)+(1-w0)*Pois(i;c) (independent Python implementation with lgamma).  '
         '(b) Likelihood/gradient identity through the hooked functions: grad_ll against central differences of the hooked '
         'log_likelihood and log_likelihood against the Python mixture, on grid and random points 0<w0<1, 1<=c<=200 with real '
-        'and synthetic histograms (including the test suite\'s).  (c) find_cutoff against the definition on random parameters.  '
+        'and synthetic histograms (including the test suite\'s).  (c) find_cutoff against the definition on random parameters.  (d) Given histograms (through the hook constructor and the real fit_histogram) whose last bin with >= 50 k-mers holds exactly 50 / 49 / 51, with interior bins below 50: truncation rule, cutoff and labels.  '
         'Non-trivial (a): the fit converged and the table has both labels; (b): a parameter point; distinct = distinct inputs.')
 ASSUMPTIONS = ['when the optimiser does not converge (possible at 0% error) counting is still judged through the accessor and the '
                'cutoff clauses are not judged for that case',
                'numerical gradient: central differences, relative tolerance 1e-4; decisive comparisons closer than 1e-9 are skipped']
 REQUIRED = {t: ['readsets_counting_judged', 'readsets_cutoff_judged', 'rows_compared', 'labels_checked', 'gradient_points',
-                'likelihood_points', 'cutoff_points', 'cli_runs'] for t in ('quick', 'thorough')}
+                'likelihood_points', 'cutoff_points', 'cli_runs', 'truncation_cases', 'truncation_exactly_50'] for t in ('quick', 'thorough')}
 
 SUITE_COUNTS = [44633459, 950672, 104410, 44137, 24170, 21232, 21699, 24145, 30696, 39210, 49878, 63683, 77690, 95147,
                 112416, 130307, 146531, 160932, 175130, 185113, 193149, 197468, 199189, 198235, 192150, 185565, 176362,
@@ -49,6 +49,8 @@ def plan(tier, seed, rng, scale):
     for i in range(m):
         descs.append({'kind': 'grad', 'seed': rng.getrandbits(32), 'suite': i == 0})
     descs.append({'kind': 'cutoff', 'seed': rng.getrandbits(32)})
+    for i in range(int((40 if tier == 'quick' else 400) * scale)):
+        descs.append({'kind': 'trunc', 'seed': rng.getrandbits(32)})
     return descs
 
 
@@ -364,8 +366,54 @@ def run_cutoff(desc, ctx, res):
             res.nontrivial.append(fingerprint(['cut', w0, c, mx]))
 
 
+def run_trunc(desc, ctx, res):
+    """Truncation rule and cutoff/labels on given histograms whose tail sits exactly at, just below and just above 50."""
+    rng = random.Random(desc['seed'])
+    w, cc = rng.uniform(0.3, 0.9), rng.uniform(8, 40)
+    n = rng.randint(int(cc) + 5, int(cc) + 40)
+    tot = rng.choice([3e4, 1e5, 1e6])
+    counts = [max(0, int(tot * math.exp(lse(comp_a(w, i + 1.0), comp_b(w, cc, i + 1.0))))) for i in range(n)]
+    # shape the tail: a last bin with exactly 50 / 49 / 51 followed by smaller ones, sometimes an interior bin below 50
+    last = rng.randint(max(2, n // 2), n - 1)
+    edge = rng.choice([50, 50, 49, 51])
+    for i in range(last, n):
+        counts[i] = rng.randint(0, 49)
+    counts[last] = edge
+    if rng.random() < 0.3 and last > 4:
+        counts[rng.randint(2, last - 1)] = rng.randint(0, 49)          # an interior gap must not truncate
+    counts[last - 1] = max(counts[last - 1], 60)
+    exp = list(counts)
+    while exp and exp[-1] < 50:
+        exp.pop()
+    p = ctx.sh(ctx.bins['harness'], 'covfit', 31, *counts, timeout=300)
+    if p.returncode != 0:
+        raise Inconclusive('harness covfit failed: ' + p.stderr[-200:])
+    hc = parse_harness_cov(p.stdout)
+    res.evals += 1
+    detail = {'counts': counts}
+    if hc['counts'] != exp:
+        res.violate('C20:truncation', 'histogram tail %s: table has %d rows, expected %d (last multiplicity with >= 50 k-mers)'
+                    % (counts[-6:], len(hc['counts'] or []), len(exp)), detail)
+        return
+    res.count('truncation_cases')
+    if edge == 50:
+        res.count('truncation_exactly_50')
+    w0, c, cutoff, fitted = hc['state']
+    if hc['fit'][0] == 'ok' and fitted:
+        want_cut, margin = py_cutoff(w0, c, len(exp))
+        if margin >= 1e-9 and cutoff != want_cut:
+            res.violate('C20:cutoff', 'given histogram: cutoff %d, definition gives %d at w0=%r c=%r' % (cutoff, want_cut, w0, c), detail)
+            return
+        if margin >= 1e-9:
+            judge_table(res, 'C20:given', hc['table'], exp, w0, c, cutoff, detail, 'given histogram')
+    res.nontrivial.append(fingerprint(['trunc', desc['seed']]))
+
+
 def run_case(desc, ctx):
     res = Result()
+    if desc['kind'] == 'trunc':
+        run_trunc(desc, ctx, res)
+        return res
     if desc['kind'] == 'reads':
         run_reads(desc, ctx, res)
     elif desc['kind'] == 'grad':
